@@ -168,6 +168,8 @@ def encode_track(enc, cyl, head, sectors, params=None, size_code=1):
     # a fourth element overrides the ID field (c, h, r, n) recorded for the sector - with a valid ID CRC -
     # while the region map keeps naming the sector by t[0]
     idov = {t[0]: t[3] for t in sectors if len(t) > 3 and t[3]}
+    # a fifth element overrides the stored data CRC (two bytes) - a field whose checksum was computed some other way
+    crcov = {t[0]: t[4] for t in sectors if len(t) > 4 and t[4] is not None}
     sectors = [(t[0], t[1], t[2] if len(t) > 2 and t[2] is not None else 0xFB) for t in sectors]
     if enc == 'fm':
         w = FmWriter()
@@ -207,6 +209,8 @@ def encode_track(enc, cyl, head, sectors, params=None, size_code=1):
             w.mark('data', rec, s)
             s = len(w.cells)
             c = crc16_fast(bytes([dmark]) + bytes(payload))
+            if rec in crcov:
+                c = crcov[rec]
             w.byte(c >> 8)
             w.byte(c & 0xFF)
             w.mark('datacrc', rec, s)
@@ -267,6 +271,8 @@ def encode_track(enc, cyl, head, sectors, params=None, size_code=1):
         w.mark('data', rec, s)
         s = len(w.cells)
         c = crc16_fast(b'\xa1\xa1\xa1' + bytes([dmark]) + bytes(payload))
+        if rec in crcov:
+            c = crcov[rec]
         w.byte(c >> 8)
         w.byte(c & 0xFF)
         w.mark('datacrc', rec, s)
@@ -438,3 +444,20 @@ def surface_tracks(enc, surface_bytes, tracks, spt, head, params_for, order_for)
         secs = [(r, surface_bytes[(t * spt + r) * 256:(t * spt + r + 1) * 256]) for r in order]
         out.append(encode_track(enc, t, head, secs, params_for(t)))
     return out
+
+
+def wrong_crcs(enc, dmark, payload):
+    """Checksums a careless writer (or a lenient reader) might use instead of the real one: CRC-16/CCITT over the
+    wrong span, with the wrong initial value, byte-swapped, or another 16-bit sum altogether."""
+    body = bytes([dmark]) + bytes(payload)
+    full = (b'\xa1\xa1\xa1' if enc == 'mfm' else b'') + body
+    real = crc16_fast(full)
+    out = {}
+    out['no-sync-bytes'] = crc16_fast(body)
+    out['data-only'] = crc16_fast(bytes(payload))
+    out['init-0'] = crc16_fast(full, 0x0000)
+    out['byte-swapped'] = ((real & 0xFF) << 8) | (real >> 8)
+    out['complemented'] = real ^ 0xFFFF
+    out['sum16'] = sum(full) & 0xFFFF
+    out['one-sync-byte'] = crc16_fast((b'\xa1' if enc == 'mfm' else b'\xfb') + body)
+    return {k: v for k, v in out.items() if v != real}
